@@ -1464,6 +1464,250 @@ fn mutate_use_var(doc: &mut DocD, name: &str) -> bool {
     go(&mut doc.ops[0].sub, name)
 }
 
+
+// ------------------------------------- multi-operation / shared fragments ---
+/// Documents with 2-4 operations that share fragments (direct and transitive
+/// spreads, fragments on O0 and on O1 reached through `o { ...F }`, acyclic),
+/// whose fragments use variables; baseline: every operation defines exactly
+/// the variables it uses transitively.  Then at most one targeted change.
+fn gen_multi(d: &SchemaD, r: &mut Rng) -> (DocD, String) {
+    use serde_json::json;
+    let pool: [(&str, &str, &str, serde_json::Value); 5] = [
+        ("x", "Int!", "String", json!(3)),
+        ("y", "String", "Int", json!("s")),
+        ("e", "E0", "Int", json!("A")),
+        ("l", "[Int!]", "[String]", json!([1, 2])),
+        ("b", "Boolean!", "String", json!(true)),
+    ];
+    let q = d.query.clone();
+    let nal = std::cell::Cell::new(0usize);
+    let al = |p: &str| -> Option<String> {
+        nal.set(nal.get() + 1);
+        Some(format!("{p}{}", nal.get()))
+    };
+    let fld = |alias: Option<String>, name: &str, args: Vec<(String, String)>, dirs: Vec<String>, sub: Vec<Sel>, parent: &str, ret: &str| Sel::Field {
+        alias,
+        name: name.to_string(),
+        args,
+        dirs,
+        sub,
+        parent: parent.to_string(),
+        ret: ret.to_string(),
+    };
+    // a selection using pool variable v, valid inside type `on` ("O0" root or "O1")
+    let usage = |v: usize, on_root: bool, r: &mut Rng| -> Sel {
+        let a = al("m");
+        let parent = if on_root { q.as_str() } else { "O1" };
+        if on_root && !(v == 4) && !(v == 0 && r.chance(1, 3)) {
+            let args: Vec<(String, String)> = match v {
+                0 => vec![("n".into(), "$x".into())],
+                1 => vec![("n".into(), "1".into()), ("s".into(), "$y".into())],
+                2 => vec![("n".into(), "2".into()), ("e".into(), "$e".into())],
+                _ => vec![("n".into(), "3".into()), ("l".into(), "$l".into())],
+            };
+            fld(a, "q", args, vec![], vec![], parent, "Int")
+        } else if v == 0 {
+            fld(a, "f0", vec![], vec!["@tag(n: $x)".into()], vec![], parent, "Int")
+        } else {
+            fld(a, "g0", vec![], vec!["@include(if: $b)".into()], vec![], parent, "Int")
+        }
+    };
+    let nfr = 2 + r.below(3);
+    // (on_root, direct uses, spreads to later fragments)
+    let mut fr_root: Vec<bool> = vec![];
+    let mut fr_uses: Vec<Vec<usize>> = vec![];
+    let mut fr_spreads: Vec<Vec<usize>> = vec![];
+    for i in 0..nfr {
+        fr_root.push(i == 0 || !r.chance(1, 4));
+    }
+    let mut frags: Vec<FragD> = vec![];
+    for i in 0..nfr {
+        let on_root = fr_root[i];
+        let mut sub = vec![];
+        let mut uses = vec![];
+        let nuse = if r.chance(1, 5) { 0 } else { 1 + r.below(2) };
+        for _ in 0..nuse {
+            let v = if on_root { r.below(5) } else if r.chance(1, 2) { 0 } else { 4 };
+            uses.push(v);
+            sub.push(usage(v, on_root, r));
+        }
+        let mut spreads = vec![];
+        for j in (i + 1)..nfr {
+            if r.chance(1, 3) && (on_root || !fr_root[j]) {
+                spreads.push(j);
+                if on_root && !fr_root[j] {
+                    let a = al("o");
+                    sub.push(fld(a, "o", vec![], vec![], vec![Sel::Spread { name: format!("S{j}"), dirs: vec![] }], &q, "O1"));
+                } else {
+                    sub.push(Sel::Spread { name: format!("S{j}"), dirs: vec![] });
+                }
+            }
+        }
+        if sub.is_empty() {
+            sub.push(fld(al("p"), "f0", vec![], vec![], vec![], if on_root { &q } else { "O1" }, "Int"));
+        }
+        fr_uses.push(uses);
+        fr_spreads.push(spreads);
+        frags.push(FragD { name: format!("S{i}"), cond: if on_root { q.clone() } else { "O1".into() }, dirs: vec![], sub });
+    }
+    let nops = 2 + r.below(3);
+    let mut op_direct: Vec<Vec<usize>> = vec![];
+    let mut op_spreads: Vec<Vec<usize>> = vec![];
+    let mut ops: Vec<OpD> = vec![];
+    for k in 0..nops {
+        let mut sub = vec![];
+        let mut direct = vec![];
+        let mut spreads = vec![];
+        let ns = 1 + r.below(2);
+        for _ in 0..ns {
+            let j = r.below(nfr);
+            if spreads.contains(&j) {
+                continue;
+            }
+            spreads.push(j);
+        }
+        if r.chance(1, 3) {
+            let v = r.below(5);
+            direct.push(v);
+            sub.push(usage(v, true, r));
+        }
+        if r.chance(1, 3) {
+            sub.push(fld(al("p"), "g0", vec![], vec![], vec![], &q, "Int"));
+        }
+        op_direct.push(direct);
+        op_spreads.push(spreads);
+        ops.push(OpD { kind: "query", name: Some(format!("Op{k}")), vars: vec![], dirs: vec![], sub, root: q.clone() });
+    }
+    // every fragment is reachable from some operation
+    let reach_of = |start: &Vec<usize>, fr_spreads: &Vec<Vec<usize>>| -> Vec<usize> {
+        let mut seen: Vec<usize> = vec![];
+        let mut todo = start.clone();
+        while let Some(j) = todo.pop() {
+            if !seen.contains(&j) {
+                seen.push(j);
+                todo.extend(fr_spreads[j].iter().cloned());
+            }
+        }
+        seen
+    };
+    for j in 0..nfr {
+        if !(0..nops).any(|k| reach_of(&op_spreads[k], &fr_spreads).contains(&j)) {
+            let k = r.below(nops);
+            op_spreads[k].push(j);
+        }
+    }
+    for k in 0..nops {
+        for &j in &op_spreads[k] {
+            if fr_root[j] {
+                ops[k].sub.push(Sel::Spread { name: format!("S{j}"), dirs: vec![] });
+            } else {
+                let a = al("o");
+                ops[k].sub.push(fld(a, "o", vec![], vec![], vec![Sel::Spread { name: format!("S{j}"), dirs: vec![] }], &q, "O1"));
+            }
+        }
+    }
+    // variables used by each operation: directly / through fragments
+    let mut via: Vec<Vec<usize>> = vec![];
+    for k in 0..nops {
+        let mut v: Vec<usize> = vec![];
+        for j in reach_of(&op_spreads[k], &fr_spreads) {
+            for &u in &fr_uses[j] {
+                if !v.contains(&u) {
+                    v.push(u);
+                }
+            }
+        }
+        v.sort();
+        via.push(v);
+    }
+    let mk = |v: usize| VarD { name: pool[v].0.to_string(), ty: pool[v].1.to_string(), default: None };
+    for k in 0..nops {
+        let mut all: Vec<usize> = via[k].clone();
+        for &u in &op_direct[k] {
+            if !all.contains(&u) {
+                all.push(u);
+            }
+        }
+        all.sort();
+        ops[k].vars = all.iter().map(|&v| mk(v)).collect();
+    }
+    let mut values = serde_json::Map::new();
+    if !r.chance(1, 3) {
+        for (n, _, _, val) in pool.iter() {
+            values.insert(n.to_string(), val.clone());
+        }
+    }
+    let mut tag = "multi-valid".to_string();
+    match r.below(10) {
+        0..=2 => {}
+        3..=5 => {
+            // drop the definition of a variable used only through fragments; prefer one that
+            // another operation reaching the same fragments does define
+            let mut cands: Vec<(usize, usize, bool)> = vec![];
+            for k in 0..nops {
+                for &v in &via[k] {
+                    if !op_direct[k].contains(&v) {
+                        let shared = (0..nops).any(|k2| k2 != k && via[k2].contains(&v));
+                        cands.push((k, v, shared));
+                    }
+                }
+            }
+            let pref: Vec<(usize, usize, bool)> = cands.iter().filter(|c| c.2).cloned().collect();
+            let pick = if !pref.is_empty() { Some(*r.pick(&pref)) } else if !cands.is_empty() { Some(*r.pick(&cands)) } else { None };
+            if let Some((k, v, shared)) = pick {
+                ops[k].vars.retain(|x| x.name != pool[v].0);
+                tag = if shared { "multi-undefined-via-shared-fragment".into() } else { "multi-undefined-via-fragment".into() };
+            }
+        }
+        6 => {
+            let k = r.below(nops);
+            let unused: Vec<usize> = (0..5).filter(|v| !ops[k].vars.iter().any(|x| x.name == pool[*v].0)).collect();
+            if !unused.is_empty() {
+                let v = *r.pick(&unused);
+                ops[k].vars.push(mk(v));
+                tag = "multi-unused-variable".into();
+            }
+        }
+        7 => {
+            let mut cands: Vec<(usize, usize)> = vec![];
+            for k in 0..nops {
+                for &v in &via[k] {
+                    cands.push((k, v));
+                }
+            }
+            if !cands.is_empty() {
+                let (k, v) = *r.pick(&cands);
+                for x in ops[k].vars.iter_mut() {
+                    if x.name == pool[v].0 {
+                        x.ty = pool[v].2.to_string();
+                    }
+                }
+                values.remove(pool[v].0);
+                tag = "multi-wrong-type-via-fragment".into();
+            }
+        }
+        8 => {
+            let leaf = fld(Some("uu".into()), "f0", vec![], vec![], vec![], &q, "Int");
+            if r.chance(1, 2) {
+                frags.push(FragD { name: "Z0".into(), cond: q.clone(), dirs: vec![], sub: vec![leaf] });
+            } else {
+                frags.push(FragD { name: "Z0".into(), cond: q.clone(), dirs: vec![], sub: vec![leaf.clone(), Sel::Spread { name: "Z1".into(), dirs: vec![] }] });
+                frags.push(FragD { name: "Z1".into(), cond: q.clone(), dirs: vec![], sub: vec![fld(Some("uv".into()), "g0", vec![], vec![], vec![], &q, "Int")] });
+            }
+            tag = "multi-unused-fragment".into();
+        }
+        _ => {
+            let cands: Vec<(usize, usize)> = (0..nops).flat_map(|k| op_direct[k].iter().map(move |&v| (k, v))).filter(|(k, v)| !via[*k].contains(v)).collect();
+            if !cands.is_empty() {
+                let (k, v) = *r.pick(&cands);
+                ops[k].vars.retain(|x| x.name != pool[v].0);
+                tag = "multi-undefined-direct".into();
+            }
+        }
+    }
+    (DocD { ops, frags, values }, tag)
+}
+
 // ------------------------------------------------------------------ running ---
 struct Obs {
     code: u8,
@@ -1568,6 +1812,11 @@ fn corpus() -> Vec<(&'static str, &'static str, serde_json::Value)> {
         ("typename-with-argument", "{ __typename(x: 1) }", json!({})),
         ("typename-with-unknown-directive", "{ __typename @nope }", json!({})),
         ("anonymous-valid", "{ f0 }", json!({})),
+        ("shared-fragment-undefined-in-one-operation", "query A($x: Int!) { ...F } query B { ...F } query C($x: Int!) { ...F } query D($x: Int!) { ...F } fragment F on O0 { q(n: $x) }", json!({"x": 1})),
+        ("shared-fragment-all-define", "query A($x: Int!) { ...F } query B($x: Int!) { ...F } fragment F on O0 { q(n: $x) }", json!({"x": 1})),
+        ("shared-fragment-transitive-undefined", "query A($x: Int!) { ...F } query B { g0 ...F } fragment F on O0 { f0 ...G } fragment G on O0 { q(n: $x) }", json!({})),
+        ("shared-fragment-unused-in-one-operation", "query A($x: Int!) { ...F } query B($x: Int!) { g0 } fragment F on O0 { q(n: $x) }", json!({"x": 1})),
+        ("shared-fragment-wrong-type-in-one-operation", "query A($x: Int!) { ...F } query B($x: String) { ...F } fragment F on O0 { q(n: $x) }", json!({})),
         ("two-operations-unselected-variable", "query Op0 { f0 } query Op1($n: Int!) { q(n: $n) }", json!({})),
     ]
 }
@@ -1612,7 +1861,21 @@ fn main() {
 
         let mut emit = |out: &mut String, tag: &str, text: &str, values: &serde_json::Map<String, serde_json::Value>, opname: Option<&str>| -> bool {
             let Ok(parsed) = async_graphql::parser::parse_query(text) else { return false };
-            let o = run(&desc, &seen, text, values, opname);
+            // the rules keep per-operation tables in randomly seeded hash maps: a document with
+            // several operations is validated repeatedly, and ANY acceptance counts as acceptance
+            let reps = if parsed.operations.iter().count() > 1 { 8 } else { 1 };
+            let mut o = run(&desc, &seen, text, values, opname);
+            let mut codes = vec![o.code];
+            for _ in 1..reps {
+                let o2 = run(&desc, &seen, text, values, opname);
+                codes.push(o2.code);
+                if o2.code == 0 && o.code != 0 || (o.code != 0 && o2.code > o.code) {
+                    o = o2;
+                }
+            }
+            if codes.iter().any(|c| *c != codes[0]) {
+                o.detail = format!("UNSTABLE over {reps} validations {codes:?}: {}", o.detail);
+            }
             let mut s = seen.lock().unwrap();
             let itr = &mut s.it;
             let gdoc = g_document(itr, &parsed);
@@ -1638,10 +1901,20 @@ fn main() {
         if schema_no % 4 == 0 {
             for (tag, text, vars) in corpus() {
                 let m = vars.as_object().cloned().unwrap_or_default();
-                let opn = if text.contains("Op1") { Some("Op0") } else { None };
+                let opn = if text.contains("Op1") { Some("Op0") } else if text.contains("query A") { Some("A") } else { None };
                 if emit(&mut out, tag, text, &m, opn) {
                     case_no += 1;
                 }
+            }
+        }
+        for _ in 0..8 {
+            if case_no >= a.n {
+                break;
+            }
+            let (doc, tag) = gen_multi(&desc, &mut rng);
+            let opn = doc.ops[rng.below(doc.ops.len())].name.clone();
+            if emit(&mut out, &tag, &doc.print(), &doc.values, opn.as_deref()) {
+                case_no += 1;
             }
         }
         for _ in 0..24 {
